@@ -3,6 +3,7 @@ package vsched
 import (
 	"fmt"
 	"reflect"
+	"sort"
 )
 
 // Channels of the code under test stay real Go channels, but only as
@@ -330,4 +331,33 @@ func Cap(x any) int {
 		return 0
 	}
 	return v.Cap()
+}
+
+// MapKeys returns the keys of a map in a fixed (sorted) order: rewritten map
+// ranges iterate over it so that executions can be replayed exactly.
+func MapKeys[M ~map[K]V, K comparable, V any](m M) []K {
+	keys := make([]K, 0, len(m))
+	for k := range m {
+		keys = append(keys, k)
+	}
+	sort.Slice(keys, func(i, j int) bool { return lessAny(keys[i], keys[j]) })
+	return keys
+}
+
+func lessAny(a, b any) bool {
+	switch x := a.(type) {
+	case string:
+		return x < b.(string)
+	case int:
+		return x < b.(int)
+	case uint32:
+		return x < b.(uint32)
+	case int32:
+		return x < b.(int32)
+	case uint64:
+		return x < b.(uint64)
+	case int64:
+		return x < b.(int64)
+	}
+	return fmt.Sprint(a) < fmt.Sprint(b)
 }
